@@ -284,7 +284,9 @@ def rule_a3(chk: Check) -> None:
             if (dotted(c.func) or "").split(".")[-1] == "start_server":
                 v = kwarg(c, "certificate_auth_config")
                 if v is not None:
-                    g3 = build_cfg(chk.proj, fi2)
+                    from ..cfg import Builder, inline_local
+
+                    g3 = Builder(chk.proj, inline_local, 3).build(fi2)  # the decision may live in a helper
                     d3 = Defs(g3)
                     node = next(x for x in g3.nodes if x.ast is not None and any(cc is c for cc in calls(x.ast)))
                     ls = origins(d3, node, v)
